@@ -139,6 +139,7 @@ type request struct {
 	holds     bool
 	deferred  *nfsx.Event
 	noRenew   bool
+	leaseOf   *clientRec // 4.0: the client whose lease a state-ID based request renews
 }
 
 func (q *request) returned() bool {
@@ -188,6 +189,7 @@ type run struct {
 	// leaf whose last "open" event of this step is a call that failed inside the
 	// real leaf (nfsx logs before delegating): -1 none
 	phantomOpen int
+	sharedLO    bool        // some lock-owner has locked one file through two open states (known-finding shape)
 	withhold    *request    // request that just parked in an open: its open event is withheld
 	inject      *nfsx.Event // withheld open event of the request being released
 }
@@ -564,6 +566,9 @@ func (r *run) drive(q *request, ops []nfsv4.NfsArgop4, pl segPlan) {
 		q.parked = true
 		// a request parked inside a leaf holds its client record, except 4.0 I/O
 		// with a special state ID (no state, no client)
+		if r.v40() && q.leaseOf != nil {
+			q.c = q.leaseOf
+		}
 		if q.c != nil && (!r.v40() || q.kind == "open" || q.ioState != nil) {
 			q.holds = true
 			q.c.inflight++
@@ -994,10 +999,14 @@ var traceOn = os.Getenv("NFSSTATE_TRACE") != ""
 
 // panicSig maps the panics of the known findings to their stable signatures.
 func (r *run) panicSig(msg string) string {
+	if !r.sharedLO {
+		// the known findings need one lock-owner locking one file through two open-owners
+		return ""
+	}
 	switch {
 	case strings.Contains(msg, "Lock-owner file still holds one or more locks"):
 		if strings.HasPrefix(r.lastLine, "free ") {
-			return sigFreeHeld41
+			return "" // FREE_STATEID must answer NFS4ERR_LOCKS_HELD (fixed in 4815fef)
 		}
 		return sigSharedLO41
 	case strings.Contains(msg, "Failed to release locks"):
